@@ -77,6 +77,9 @@ let dispatch_aes fn args = match fn, args with
      | _ -> failwith ("unknown function " ^ fn))
 
 let dispatch fn args = match fn, args with
+  | "aes_prepared", [raw; prep] ->
+    (* the password bytes of R5/R6: firstn 127 of the prepared password *)
+    (match c_prepared_password (fun _ -> opt_bytes prep) (bytes_of_hex raw) with Some x -> hex_of_bytes x | None -> "!")
   | ("aes_hash6" | "s_alg2B" | "aes_vuser" | "aes_vowner" | "s_alg11" | "s_alg12" | "aes_calc" | "s_alg89"
     | "aes_wperms" | "s_alg10" | "aes_vperms" | "s_alg13"), _ -> dispatch_aes fn args
   | "md5", [m] -> hex_of_bytes (md5 (bytes_of_hex m))
